@@ -62,10 +62,22 @@ func (c *ValCfg) strlen(r *Rand, depth int) int {
 	return strLens[r.Intn(len(strLens))]
 }
 
-// HasRequired reports whether decoding an empty struct message into s fails.
-func HasRequired(s *schema.Struct) bool {
+// HasRequired reports whether decoding an empty struct message into s - or
+// re-encoding the struct so decoded and decoding that again - fails: s has a
+// required field itself, or reaches one through fields that are always written
+// once s exists (by-value structs, non-optional struct pointers).
+func HasRequired(s *schema.Struct) bool { return hasRequired(s, map[*schema.Struct]bool{}) }
+
+func hasRequired(s *schema.Struct, seen map[*schema.Struct]bool) bool {
+	if seen[s] {
+		return false
+	}
+	seen[s] = true
 	for _, f := range s.Fields {
 		if f.Req == schema.Required {
+			return true
+		}
+		if f.T.K == schema.StructK && (!f.T.Ptr || f.Req != schema.Optional) && hasRequired(f.T.S, seen) {
 			return true
 		}
 	}
